@@ -14,7 +14,7 @@ ID = "C03"
 
 def plan(tier: str) -> dict:
     return {
-        "runs": 20000 if tier == "quick" else 400000,
+        "runs": 20000 if tier == "quick" else 1000000,
         "budget": 150 if tier == "quick" else 900,
         "cases": [],
         "chunk": 40,
